@@ -202,16 +202,25 @@ Definition wf_opt_area (dated : bool) (nf : nat) (o : option sarea) : bool :=
 Definition start_ok (present : bool) (before : nat) : bool :=
   if present then Nat.ltb before 2048 else true.
 
-Definition wf_inv (s : sinv) : bool :=
+Definition wf_inv_gen (wfr : srec -> bool) (s : sinv) : bool :=
   bytes_ok (s_internal s) && Nat.eqb (Nat.modulo (length (s_internal s)) 8) 0 &&
   wf_opt_area false 2 (s_chassis s) && wf_opt_area true 5 (s_board s) &&
-  wf_opt_area false 7 (s_product s) && forallb wf_rec (s_multi s) &&
+  wf_opt_area false 7 (s_product s) && forallb wfr (s_multi s) &&
   (let n1 := (8 + length (s_internal s))%nat in
    let n2 := (n1 + length (enc_opt_area false (s_chassis s)))%nat in
    let n3 := (n2 + length (enc_opt_area true (s_board s)))%nat in
    let n4 := (n3 + length (enc_opt_area false (s_product s)))%nat in
    start_ok (is_some (s_chassis s)) n1 && start_ok (is_some (s_board s)) n2 &&
    start_ok (is_some (s_product s)) n3 && start_ok (nonempty (s_multi s)) n4).
+
+Definition wf_inv := wf_inv_gen wf_rec.
+
+(* the full domain of the storage definition: ANY record type with 0..255 payload bytes,
+   i.e. also type-0xC0 OEM records that are shorter than the PICMG structure pyipmi
+   decodes them as (known finding F15c: C15_parse_enc_refuted) *)
+Definition wf_rec_any (r : srec) : bool :=
+  (sr_type r <? 256) && bytes_ok (sr_payload r) && Nat.leb (length (sr_payload r)) 255.
+Definition wf_inv_full := wf_inv_gen wf_rec_any.
 
 Definition view_opt_area (dated : bool) (o : option sarea) : area_st :=
   match o with Some a => Parsed (view_area dated a) | None => Absent end.
